@@ -21,17 +21,48 @@ for name in sorted(os.listdir(os.path.join(ROOT, "seeded"))):
         shutil.copytree("/repo/python/gtirb", tmp + "/python/gtirb", ignore=shutil.ignore_patterns("__pycache__"))
         shutil.copy("/repo/python/version.py.in", tmp + "/python/version.py.in")
         shutil.copytree("/repo/proto", tmp + "/proto"); shutil.copy("/repo/version.txt", tmp + "/version.txt")
-        subprocess.run(["patch", "-p1", "-s", "-i", os.path.join(d, "patch.diff")], cwd=tmp, check=True)
+        pr = subprocess.run(["patch", "-p1", "-s", "--fuzz=3", "-i", os.path.join(d, "patch.diff")], cwd=tmp)
+        if pr.returncode != 0:
+            print(name, "patch does not apply to the current tree"); continue
         t0 = time.time()
-        env = dict(os.environ, VERIF_REPO=tmp)
+        env = dict(os.environ, VERIF_REPO=tmp, VERIF_TIMEOUT_MS=os.environ.get("VERIF_TIMEOUT_MS", "15000"),
+                   VERIF_RETRY_MS=os.environ.get("VERIF_RETRY_MS", "30000"))
         p = subprocess.run([os.path.join(ROOT, "check"), pid], capture_output=True, text=True, env=env, cwd=ROOT)
         lines = [l for l in p.stdout.splitlines() if l.startswith(("VIOLATION", "UNDECIDED", "CHECKER", pid + ":"))]
-        out[name] = {"property": pid, "exit": p.returncode, "secs": round(time.time() - t0), "lines": lines[:6]}
+        how = []
+        for l in lines:
+            if l.startswith("VIOLATION") and "replay=" in l:
+                rp = l.split("replay=")[1].split()[0]
+                try:
+                    rep = json.load(open(rp))
+                    how.append({"kind": rep.get("kind"), "obligation": rep.get("obligation"),
+                                "concrete_input": bool(rep.get("failing_input"))})
+                except Exception:
+                    pass
+        und = [l for l in p.stdout.splitlines() if l.startswith("UNDECIDED")]
+        out[name] = {"property": pid, "exit": p.returncode, "secs": round(time.time() - t0), "lines": lines[:6], "how": how[:8],
+                     "undecided": und[:3]}
         print(name, pid, "exit", p.returncode, "|", " ; ".join(l[:150] for l in lines[:3]), flush=True)
         # keep the failed obligation names for DESIGN.md
-        meta["detected_by"] = {"check": pid, "exit": p.returncode, "lines": lines[:4]} if p.returncode == 1 else \
+        meta["detected_by"] = {"check": pid, "exit": p.returncode, "how": how[:8]} if p.returncode == 1 else \
             {"check": pid, "exit": p.returncode, "missed": True, "lines": lines[:4]}
         json.dump(meta, open(os.path.join(d, "meta.json"), "w"), indent=1)
     finally:
         shutil.rmtree(tmp, ignore_errors=True)
-json.dump(out, open(os.path.join(ROOT, "seeded", "results.json"), "w"), indent=1)
+resf = os.path.join(ROOT, "seeded", "results.json")
+allres = {}
+if os.path.exists(resf):
+    allres = json.load(open(resf))
+allres.update(out)
+json.dump(allres, open(resf, "w"), indent=1)
+with open(os.path.join(ROOT, "seeded", "SUMMARY.md"), "w") as f:
+    f.write("| seed | property | exit | failed obligations (deductive) | bounded stand-in | concrete input |\n|---|---|---|---|---|---|\n")
+    for name in sorted(allres):
+        r = allres[name]
+        ded = sorted({(h["obligation"] or "").split("::")[-1] for h in r.get("how", []) if h["kind"] == "failed-obligation"})
+        bnd = any(h["kind"] and h["kind"].startswith("bounded") for h in r.get("how", []))
+        conc = any(h["concrete_input"] for h in r.get("how", []))
+        f.write("| %s | %s | %d | %s | %s | %s |\n" % (name, r["property"], r["exit"], "; ".join(ded)[:300] or "-",
+                                                        "yes" if bnd else "-", "yes" if conc else "-"))
+    det = sum(1 for r in allres.values() if r["exit"] == 1)
+    f.write("\n%d of %d seeded changes reported by the check of their property.\n" % (det, len(allres)))
